@@ -58,7 +58,7 @@ type knobs struct {
 	lbClass                string
 	huge                   bool // allow the huge IPv6 prefix
 	avoidKnown             bool // keep generators away from listed known-finding shapes
-	crashAtStep            int  // forced crash point (enumeration mode), -1 = none
+	crashAtOpp             int  // crash-point enumeration: crash at the n-th crash opportunity (every scheduler step boundary, before and after every status write), -1 = none
 	crashAtWrite           int  // forced crash at n-th status write: 2n = before, 2n+1 = after, -1 none
 }
 
@@ -113,6 +113,7 @@ type world struct {
 	known []runner.Violation
 	halt  bool // a listed finding manifested: stop judging this run
 
+	opp         int // crash opportunities passed so far
 	opsLeft     int
 	settling    bool
 	faultsOn    bool
@@ -208,7 +209,7 @@ func (c simSvcClient) UpdateStatus(svc *v1.Service) error {
 	w.writes++
 	w.writesBySvc[key]++
 	w.sched.add("write:" + key)
-	if w.k.crashAtWrite == 2*n {
+	if w.k.crashAtWrite == 2*n || w.oppHit() {
 		w.stat("fault.crash-before-status-write")
 		panic(crashSentinel{"before status write of " + key})
 	}
@@ -236,7 +237,7 @@ func (c simSvcClient) UpdateStatus(svc *v1.Service) error {
 	}
 	w.logf("  status write %s -> %v ann=%q", key, ingress(svc), svc.Annotations[specalloc.AnnAllocatedFrom])
 	w.applyEager()
-	if w.k.crashAtWrite == 2*n+1 {
+	if w.k.crashAtWrite == 2*n+1 || w.oppHit() {
 		w.stat("fault.crash-after-status-write")
 		panic(crashSentinel{"after status write of " + key})
 	}
@@ -601,7 +602,9 @@ func (w *world) crash(where string) {
 	w.sched.add("crash")
 	w.crashed = true
 	w.opsSinceCrash = 0
-	if w.ch.Bool(1, 2, "settle after crash?") {
+	if w.k.crashAtOpp >= 0 {
+		w.settling = true // enumeration: the recovery is judged on its own before the history goes on
+	} else if w.ch.Bool(1, 2, "settle after crash?") {
 		w.settling = true
 	}
 	w.crashStatuses = map[string][]netip.Addr{}
@@ -622,6 +625,11 @@ type action struct {
 
 // step performs one scheduler step; returns false when nothing can happen.
 func (w *world) step() bool {
+	if w.oppHit() {
+		w.stat("fault.crash-between-events")
+		w.crash("between events")
+		return true
+	}
 	inc := w.inc
 	var acts []action
 	if un := inc.cache.Unsynced(); len(un) > 0 {
@@ -710,9 +718,6 @@ func (w *world) step() bool {
 	if len(acts) == 0 {
 		return false
 	}
-	if w.k.crashAtStep >= 0 && w.steps+w.nontrivialSteps() == w.k.crashAtStep {
-		// enumeration mode: forced crash point, counted in scheduler steps
-	}
 	total := 0
 	for _, a := range acts {
 		total += a.weight
@@ -728,7 +733,13 @@ func (w *world) step() bool {
 	return true
 }
 
-func (w *world) nontrivialSteps() int { return 0 }
+// oppHit numbers the crash opportunities of the run (crash-point enumeration) and reports whether
+// this one is the enumerated point.
+func (w *world) oppHit() bool {
+	hit := w.k.crashAtOpp >= 0 && w.opp == w.k.crashAtOpp
+	w.opp++
+	return hit
+}
 
 // runProtected executes one scheduler step, turning a crash sentinel into a restart.
 func (w *world) runProtected() (progressed bool) {
